@@ -144,6 +144,31 @@ func (a AlterTableOperation) Children() []Node {
 	if a.AlterColumnOp != nil {
 		children = append(children, a.AlterColumnOp)
 	}
+	if a.ColumnPosition != nil && a.ColumnPosition.After != nil {
+		children = append(children, a.ColumnPosition.After)
+	}
+	for _, id := range []*Ident{a.ProjectionName, a.PartitionName, a.OldColumnName, a.NewColumnName,
+		a.ConstraintName, a.OldName, a.NewName, a.ColumnName} {
+		if id != nil {
+			children = append(children, id)
+		}
+	}
+	if a.TableName != (ObjectName{}) {
+		children = append(children, &a.TableName)
+	}
+	if a.NewTableName != (ObjectName{}) {
+		children = append(children, &a.NewTableName)
+	}
+	for _, part := range a.Partitions {
+		if part == nil {
+			continue
+		}
+		for _, col := range part.Columns {
+			if col != nil {
+				children = append(children, col)
+			}
+		}
+	}
 	return children
 }
 
